@@ -89,20 +89,29 @@ Section Proofs.
       exists t. split; [lia | exact H].
   Qed.
 
-  (* a timeout of S t0 ticks ==> returned by tick S t0 *)
-  Lemma poll1_timeout fuel states term (tr : traj) t0 : forall c,
-    c < S t0 -> S t0 - c <= fuel ->
-    exists t, c <= t <= S t0 /\
-      poll1 fuel states (Some (S t0)) term tr c = Returned (VOne (at_ tr t)) t.
+  (* the timeout test in terms of the deadline: the first tick at which it holds *)
+  Lemma timed_out_deadline T d c : deadline T = Some d -> timed_out T c = (d <=? c).
   Proof.
-    induction fuel as [|f IH]; intros c Hc Hf; [lia|]. rewrite poll1_eq.
+    destruct T as [| |[|n]]; simpl; try discriminate; intro H; injection H as <-; reflexivity.
+  Qed.
+  Lemma timed_out_no_deadline T c : deadline T = None -> timed_out T c = false.
+  Proof. destruct T as [| |[|n]]; simpl; try discriminate; reflexivity. Qed.
+
+  (* a deadline d (d = T for a timeout of T > 0 ticks, d = 0 for a negative
+     timeout) ==> returned by tick max d 1: Task.wait / Pilot.wait test the
+     timeout only after the first sleep *)
+  Lemma poll1_timeout fuel states T term (tr : traj) d : deadline T = Some d -> forall c,
+    c < Nat.max d 1 -> Nat.max d 1 - c <= fuel ->
+    exists t, c <= t <= Nat.max d 1 /\
+      poll1 fuel states T term tr c = Returned (VOne (at_ tr t)) t.
+  Proof.
+    intro HD. induction fuel as [|f IH]; intros c Hc Hf; [lia|]. rewrite poll1_eq.
     destruct (mem (at_ tr c) states); [exists c; split; [lia | reflexivity]|].
     destruct (is_final (at_ tr c)); [exists c; split; [lia | reflexivity]|].
-    destruct (timed_out (Some (S t0)) (S c)) eqn:Hto; [exists (S c); split; [lia | reflexivity]|].
+    destruct (timed_out T (S c)) eqn:Hto; [exists (S c); split; [lia | reflexivity]|].
     destruct (term_set term (S c)); [exists (S c); split; [lia | reflexivity]|].
-    assert (S c < S t0).
-    { simpl in Hto. destruct c as [|c']; [destruct t0; [discriminate | lia]|].
-      apply Nat.leb_gt in Hto. lia. }
+    assert (S c < Nat.max d 1).
+    { rewrite (timed_out_deadline _ _ _ HD) in Hto. apply Nat.leb_gt in Hto. lia. }
     destruct (IH (S c)) as [t [Ht H']]; [lia | lia |].
     exists t. split; [lia | exact H'].
   Qed.
@@ -152,14 +161,14 @@ Section Proofs.
         [lia | lia | exact Hsat |]. exists t. split; [lia | exact H].
   Qed.
 
-  Lemma entity_timeout r term fuel (tr : traj) t0 :
-    S t0 <= fuel ->
-    exists t, t <= S t0 /\
-      entity_wait r (Some (S t0)) term fuel tr = Returned (VOne (at_ tr t)) t.
+  Lemma entity_timeout r T term fuel (tr : traj) d :
+    deadline T = Some d -> Nat.max d 1 <= fuel ->
+    exists t, t <= Nat.max d 1 /\
+      entity_wait r T term fuel tr = Returned (VOne (at_ tr t)) t.
   Proof.
-    intro Hf. unfold Model.entity_wait. destruct (is_final (at_ tr 0)).
+    intros HD Hf. unfold Model.entity_wait. destruct (is_final (at_ tr 0)).
     - exists 0. split; [lia|]. destruct (mem (at_ tr 0) (norm final r)); reflexivity.
-    - destruct (poll1_timeout fuel (norm final r) term tr t0 0) as [t [Ht H]];
+    - destruct (poll1_timeout fuel (norm final r) T term tr d HD 0) as [t [Ht H]];
         [lia | lia |]. exists t. split; [lia | exact H].
   Qed.
 
@@ -228,7 +237,7 @@ Section Proofs.
 
   Theorem entity_clauses r T term fuel (tr : traj) :
     horizon [tr] + 2 <= fuel ->
-    (forall t0, T = Some t0 -> t0 + 2 <= fuel) ->
+    (forall d, deadline T = Some d -> d + 2 <= fuel) ->
     clauses seqb final value 0 false false (norm final r) T term (Some [tr])
             (entity_wait r T term fuel tr) = [true; true; true; true; true].
   Proof.
@@ -246,8 +255,8 @@ Section Proofs.
         rewrite H. simpl. apply Nat.leb_le. lia.
       - discriminate. }
     assert (E3 : ok_timeout T (entity_wait r T term fuel tr) = true).
-    { unfold ok_timeout. destruct T as [[|t0]|]; try reflexivity.
-      destruct (entity_timeout r term fuel tr t0) as [t [Ht H]].
+    { unfold ok_timeout. destruct (deadline T) as [d|] eqn:HD; [|reflexivity].
+      destruct (entity_timeout r T term fuel tr d HD) as [t [Ht H]].
       { specialize (HT _ eq_refl). lia. }
       rewrite H. simpl. apply Nat.leb_le. lia. }
     assert (E4 : ok_justified seqb final value (norm final r) T term [tr]
@@ -302,20 +311,22 @@ Section Proofs.
       + exists t. split; [lia | exact H].
   Qed.
 
-  Lemma wt_timeout fuel v term t0 : forall (chk : list traj) c,
-    c <= S t0 -> S t0 - c <= fuel ->
-    exists t, c <= t <= S t0 /\ wt_loop fuel v (Some (S t0)) term chk c = Some t.
+  (* wait_tasks tests the timeout BEFORE the first sleep: left by tick d (at
+     once for a negative timeout) *)
+  Lemma wt_timeout fuel v T term d : deadline T = Some d -> forall (chk : list traj) c,
+    c <= d -> d - c <= fuel ->
+    exists t, c <= t <= d /\ wt_loop fuel v T term chk c = Some t.
   Proof.
-    induction fuel as [|f IH]; intros chk c Hc Hf; rewrite wt_loop_eq.
+    intro HD. induction fuel as [|f IH]; intros chk c Hc Hf; rewrite wt_loop_eq.
     - destruct chk; [exists c; split; [lia | reflexivity]|].
       destruct (term_set term c); [exists c; split; [lia | reflexivity]|].
-      assert (c = S t0) by lia. subst c. simpl. rewrite Nat.leb_refl.
-      exists (S t0). split; [lia | reflexivity].
+      assert (c = d) by lia. subst c. rewrite (timed_out_deadline _ _ _ HD), Nat.leb_refl.
+      exists d. split; [lia | reflexivity].
     - destruct chk as [|x chk0] eqn:Echk; [exists c; split; [lia | reflexivity]|]. rewrite <- Echk.
       destruct (term_set term c); [exists c; split; [lia | reflexivity]|].
-      destruct (timed_out (Some (S t0)) c) eqn:Hto; [exists c; split; [lia | reflexivity]|].
-      assert (c < S t0).
-      { simpl in Hto. destruct c as [|c']; [lia|]. apply Nat.leb_gt in Hto. lia. }
+      destruct (timed_out T c) eqn:Hto; [exists c; split; [lia | reflexivity]|].
+      assert (c < d).
+      { rewrite (timed_out_deadline _ _ _ HD) in Hto. apply Nat.leb_gt in Hto. lia. }
       destruct (IH (filter (wt_keep v (S c)) chk) (S c)) as [t [Ht H']]; [lia | lia |].
       exists t. split; [lia | exact H'].
   Qed.
@@ -452,18 +463,20 @@ Section Proofs.
       + exists t. split; [lia | exact H].
   Qed.
 
-  Lemma wp_timeout fuel states term t0 : forall (chk : list traj) c,
-    c <= S t0 -> S (S t0) - c <= fuel ->
-    exists t, c <= t <= S (S t0) /\ wp_loop fuel states (Some (S t0)) term chk c = Some t.
+  (* wait_pilots tests the timeout at every poll, also the first, but only
+     while pilots are pending; otherwise it sleeps once more: left by tick d+1 *)
+  Lemma wp_timeout fuel states T term d : deadline T = Some d -> forall (chk : list traj) c,
+    c <= d -> S d - c <= fuel ->
+    exists t, c <= t <= S d /\ wp_loop fuel states T term chk c = Some t.
   Proof.
-    induction fuel as [|f IH]; intros chk c Hc Hf; [lia|]. rewrite wp_loop_eq.
+    intro HD. induction fuel as [|f IH]; intros chk c Hc Hf; [lia|]. rewrite wp_loop_eq.
     destruct chk as [|x chk0] eqn:Echk; [exists c; split; [lia | reflexivity]|]. rewrite <- Echk.
     destruct (term_set term c); [exists c; split; [lia | reflexivity]|]. cbv zeta.
     destruct (filter (wp_keep states c) chk) as [|y l] eqn:Ef.
     - rewrite wp_loop_eq. exists (S c). split; [lia | reflexivity].
-    - destruct (timed_out (Some (S t0)) c) eqn:Hto; [exists c; split; [lia | reflexivity]|].
-      assert (c < S t0).
-      { simpl in Hto. destruct c as [|c']; [lia|]. apply Nat.leb_gt in Hto. lia. }
+    - destruct (timed_out T c) eqn:Hto; [exists c; split; [lia | reflexivity]|].
+      assert (c < d).
+      { rewrite (timed_out_deadline _ _ _ HD) in Hto. apply Nat.leb_gt in Hto. lia. }
       destruct (IH (y :: l) (S c)) as [t [Ht H']]; [lia | lia |].
       exists t. split; [lia | exact H'].
   Qed.
@@ -590,7 +603,7 @@ Section Proofs.
        (forall tr, In tr aw -> exists j, p0 <= j <= k /\
           passed seqb final value states (at_ tr j) = true) ->
        exists t, t <= S k /\ lr = Some t) ->
-    (forall t0, T = Some (S t0) -> exists t, t <= S (S t0) /\ lr = Some t) ->
+    (forall d, deadline T = Some d -> exists t, t <= S d /\ lr = Some t) ->
     (forall t, lr = Some t ->
        term_set term t = true \/ timed_out T t = true \/
        forall tr, In tr aw -> reached seqb final value states tr t = true) ->
@@ -618,8 +631,8 @@ Section Proofs.
         - intros Hl k Hk Hall.
           destruct (F1c Hl k Hk Hall) as [t [Ht E]]. injection E as <-. simpl. apply Nat.leb_le. exact Ht. }
       assert (E3 : ok_timeout T (Returned v c) = true).
-      { unfold ok_timeout. destruct T as [[|t0]|]; try reflexivity.
-        destruct (F2 t0 eq_refl) as [t [Ht E]]. injection E as <-. simpl ret_by.
+      { unfold ok_timeout. destruct (deadline T) as [d|] eqn:HD; [|reflexivity].
+        destruct (F2 d eq_refl) as [t [Ht E]]. injection E as <-. simpl ret_by.
         apply Nat.leb_le. exact Ht. }
       assert (E4 : ok_justified seqb final value states T term aw (Returned v c) = true).
       { unfold ok_justified. destruct (F3 c eq_refl) as [H | [H | H]].
@@ -633,8 +646,8 @@ Section Proofs.
         - intros k Hk Hall. destruct (F1b k Hk Hall) as [t [_ E]]. discriminate.
         - intros Hl k Hk Hall. destruct (F1c Hl k Hk Hall) as [t [_ E]]. discriminate. }
       assert (E3 : ok_timeout T (@Spins state) = true).
-      { unfold ok_timeout. destruct T as [[|t0]|]; try reflexivity.
-        destruct (F2 t0 eq_refl) as [t [_ E]]. discriminate. }
+      { unfold ok_timeout. destruct (deadline T) as [d|] eqn:HD; [|reflexivity].
+        destruct (F2 d eq_refl) as [t [_ E]]. discriminate. }
       rewrite E2, E3. reflexivity.
   Qed.
 
@@ -685,7 +698,7 @@ Section Proofs.
   Theorem wait_tasks_clauses r T term fuel (tab : table) u (aw : list traj) :
     awaited_tasks tab u = Some aw ->
     horizon aw + 2 <= fuel ->
-    (forall t0, T = Some t0 -> t0 + 2 <= fuel) ->
+    (forall d, deadline T = Some d -> d + 2 <= fuel) ->
     clauses seqb final value 1 true (as_list u) (norm final r) T term (Some aw)
             (wait_tasks seqb final value r T term fuel tab u) = [true; true; true; true; true].
   Proof.
@@ -722,8 +735,8 @@ Section Proofs.
       + intros tr Htr. destruct (Hall tr Htr) as [j [Hj Hs]]. exists j. split; [lia|].
         apply (wt_keep_false_of_passed _ _ _ _ Hv). exact Hs.
       + exists t. split; [lia | exact E].
-    - intros t0 ->. specialize (HT _ eq_refl).
-      destruct (wt_timeout fuel v term t0 aw 0) as [t [Ht E]]; [lia | lia |].
+    - intros d HD. specialize (HT _ HD).
+      destruct (wt_timeout fuel v T term d HD aw 0) as [t [Ht E]]; [lia | lia |].
       exists t. split; [lia | exact E].
     - intros t E. apply wt_justified in E as [_ [E | [E | E]]]; auto.
       right; right. intros tr Htr. destruct (E tr Htr) as [j [Hj Hk]].
@@ -733,7 +746,7 @@ Section Proofs.
   Theorem wait_pilots_clauses r T term fuel (tab : table) u (aw : list traj) :
     awaited_pilots seqb final tab u = Some aw ->
     horizon aw + 2 <= fuel ->
-    (forall t0, T = Some t0 -> t0 + 2 <= fuel) ->
+    (forall d, deadline T = Some d -> d + 2 <= fuel) ->
     clauses seqb final value 0 false (as_list u) (norm final r) T term (Some aw)
             (wait_pilots seqb final r T term fuel tab u) = [true; true; true; true; true].
   Proof.
@@ -751,8 +764,8 @@ Section Proofs.
         apply wp_keep_false_iff. exact Hs.
       + exists t. split; [lia | exact E].
     - discriminate.
-    - intros t0 ->. specialize (HT _ eq_refl).
-      destruct (wp_timeout fuel (norm final r) term t0 aw 0) as [t [Ht E]]; [lia | lia |].
+    - intros d HD. specialize (HT _ HD).
+      destruct (wp_timeout fuel (norm final r) T term d HD aw 0) as [t [Ht E]]; [lia | lia |].
       exists t. split; [lia | exact E].
     - intros t E. apply wp_justified in E as [_ [E | [E | E]]]; auto.
       right; right. intros tr Htr. destruct (E tr Htr) as [j [Hj Hk]].
@@ -831,6 +844,36 @@ Section Proofs.
       exists v, t. split; [lia|]. split; assumption.
   Qed.
 
+  (* timeouts of the manager calls.  wait_tasks tests the timeout before its
+     first sleep: with a deadline d (d = T for T > 0 ticks, d = 0 for a negative
+     timeout) it has returned by tick d -- at once, without a poll, for a
+     negative timeout -- with the tasks' actual states *)
+  Theorem wait_tasks_timeout r T term fuel (tab : table) u (aw : list traj) d :
+    awaited_tasks tab u = Some aw -> deadline T = Some d -> d <= fuel ->
+    exists v t, t <= d /\
+      wait_tasks seqb final value r T term fuel tab u = Returned v t /\
+      ok_truthful seqb (as_list u) aw (Returned v t) = true.
+  Proof.
+    intros Ha HD Hf. destruct (check_val_some (norm final r)) as [cv Hv].
+    rewrite (wait_tasks_unfold _ _ _ _ _ _ _ _ Ha Hv).
+    destruct (wt_timeout fuel cv T term d HD aw 0) as [t [Ht E]]; [lia | lia |].
+    rewrite E. destruct (ret_states_ok (as_list u) aw t (awaited_one_tasks _ _ _ Ha)) as [v [H1 H2]].
+    exists v, t. split; [lia|]. split; assumption.
+  Qed.
+
+  (* wait_pilots: returned by tick d+1 (by tick 1 for a negative timeout) *)
+  Theorem wait_pilots_timeout r T term fuel (tab : table) u (aw : list traj) d :
+    awaited_pilots seqb final tab u = Some aw -> deadline T = Some d -> S d <= fuel ->
+    exists v t, t <= S d /\
+      wait_pilots seqb final r T term fuel tab u = Returned v t /\
+      ok_truthful seqb (as_list u) aw (Returned v t) = true.
+  Proof.
+    intros Ha HD Hf. rewrite (wait_pilots_unfold _ _ _ _ _ _ _ Ha).
+    destruct (wp_timeout fuel (norm final r) T term d HD aw 0) as [t [Ht E]]; [lia | lia |].
+    rewrite E. destruct (ret_states_ok (as_list u) aw t (awaited_one_pilots _ _ _ Ha)) as [v [H1 H2]].
+    exists v, t. split; [lia|]. split; assumption.
+  Qed.
+
   (* an unknown uid raises (KeyError / ValueError), nothing is claimed *)
   Theorem wait_tasks_unknown_uid r T term fuel (tab : table) u :
     awaited_tasks tab u = None ->
@@ -873,21 +916,18 @@ Section Proofs.
 
   Lemma timed_out_mono T c c' : c <= c' -> timed_out T c = true -> timed_out T c' = true.
   Proof.
-    destruct T as [[|t]|]; simpl; try discriminate. intros Hc H.
-    destruct c as [|c0]; [discriminate|]. destruct c' as [|c1]; [lia|].
-    apply Nat.leb_le in H. apply Nat.leb_le. lia.
+    intros Hc H. destruct (deadline T) as [d|] eqn:HD.
+    - rewrite (timed_out_deadline _ _ c HD) in H. rewrite (timed_out_deadline _ _ c' HD).
+      apply Nat.leb_le in H. apply Nat.leb_le. lia.
+    - rewrite (timed_out_no_deadline _ _ HD) in H. discriminate.
   Qed.
   Lemma term_set_mono term c c' : c <= c' -> term_set term c = true -> term_set term c' = true.
   Proof.
     destruct term as [k|]; simpl; try discriminate. intros Hc H.
     apply Nat.leb_le in H. apply Nat.leb_le. lia.
   Qed.
-  Lemma timed_out_at_bound T t0 c : T = Some t0 -> t0 <= c -> timed_out T c = false ->
-    forall c', timed_out T c' = false.
-  Proof.
-    intros -> Hc H c'. destruct t0 as [|t]; [reflexivity|]. simpl in H.
-    destruct c as [|c0]; [lia|]. apply Nat.leb_gt in H. lia.
-  Qed.
+  Lemma timed_out_at_bound T d c : deadline T = Some d -> d <= c -> timed_out T c = false -> False.
+  Proof. intros HD Hc H. rewrite (timed_out_deadline _ _ _ HD) in H. apply Nat.leb_gt in H. lia. Qed.
   Lemma term_set_at_bound term k c : term = Some k -> k <= c -> term_set term c = false -> False.
   Proof. intros -> Hc H. simpl in H. apply Nat.leb_gt in H. lia. Qed.
 
@@ -944,7 +984,7 @@ Section Proofs.
      returns *)
   Theorem entity_spins_forever r T term fuel (tr : traj) :
     length (snd tr) + 1 <= fuel ->
-    (forall t0, T = Some t0 -> t0 + 1 <= fuel) ->
+    (forall d, deadline T = Some d -> d + 1 <= fuel) ->
     (forall k, term = Some k -> k + 1 <= fuel) ->
     entity_wait r T term fuel tr = Spins ->
     forall fuel', entity_wait r T term fuel' tr = Spins.
@@ -956,8 +996,8 @@ Section Proofs.
     destruct (poll1_spins_last _ _ _ _ _ _ H) as [H1 [H2 H3]]. simpl in H1, H2, H3.
     destruct H3 as [H3 H4]; [lia|].
     assert (Hto : forall c, timed_out T c = false).
-    { destruct T as [t0|]; [|reflexivity].
-      apply (timed_out_at_bound (Some t0) t0 fuel eq_refl); [specialize (HT _ eq_refl); lia | exact H3]. }
+    { intro c. destruct (deadline T) as [d|] eqn:HD; [|apply timed_out_no_deadline; exact HD].
+      exfalso. apply (timed_out_at_bound T d fuel HD); [specialize (HT _ eq_refl); lia | exact H3]. }
     assert (Hte : forall c, term_set term c = false).
     { destruct term as [k|]; [|reflexivity]. exfalso.
       apply (term_set_at_bound (Some k) k fuel eq_refl); [specialize (Hterm _ eq_refl); lia | exact H4]. }
